@@ -53,7 +53,7 @@ def harnesses(tier, seed):
     jobs = []
     cfgs = [('fd', 'forward', 'abs', 2 ** -10), ('fd', 'backward', 'abs', 2 ** -10), ('fd', 'central', 'abs', 2 ** -10), ('cs', 'na', 'abs', 1e-40),
             ('fd', 'forward', 'abs', 1e-6)]
-    if not q:
+    if not q:       # relative steps fork on the sign of every input element and need nonlinear reasoning (~200 s of solver time each)
         cfgs += [('fd', 'central', 'abs', 1e-6), ('fd', 'forward', 'rel_avg', 2 ** -10), ('fd', 'central', 'rel_element', 2 ** -10)]
     for method, form, sc, step in cfgs:
         for level in ('partials', 'group', 'model'):
@@ -145,6 +145,12 @@ def h_approx(ctx, method, form, step_calc, step, level):
     p.set_val(P.wrts[0], a)
     p.run_model()
     p.model.run_apply_nonlinear()
+    if level != 'partials':
+        # residuals left over from an unconverged state: group-level approximations re-run the solve at every point and must
+        # put back what was there
+        r = p.model._residuals.asarray()
+        for k in range(r.size):
+            r[k] = ctx.const(0.125 * (k + 1)) if ctx.sym else 0.125 * (k + 1)
     before = _snap(p)
     J = np.asarray(p.compute_totals(of=P.ofs, wrt=P.wrts, return_format='array'))
     after = _snap(p)
